@@ -39,6 +39,16 @@ def generate(rng, tier):
                                 # keep the low-x term away from its removable singularities (r = +-pi/Qmax) and Qmin > 0
                                 if c["xin"][0] == 0.0 and omitted:
                                     c["xin"] = [v + 0.37 for v in c["xin"]]
+                            if not omitted and not uns and len(c["xin"]) >= 3 and rng.random() < 0.35:
+                                # abscissae on both sides of zero (e.g. after a Q offset): conversions are pointwise there too
+                                sh = c["xin"][len(c["xin"]) // 2] + 0.0137
+                                c["xin"] = [v - sh for v in c["xin"]]
+                                c["xmin"] = None if c["xmin"] is None else c["xmin"] - sh
+                                c["xmax"] = None if c["xmax"] is None else c["xmax"] - sh
+                                if c["xmax"] is not None and c["xmax"] <= 0:
+                                    c["xmax"] = None
+                                c["int_dtype"] = [False, c["int_dtype"][1], c["int_dtype"][2]]
+                                c["desc"]["grid"] = c["desc"]["grid"] + "+negative"
                             lo = c["xmin"] if c["xmin"] is not None else min(c["xin"])
                             hi = c["xmax"] if c["xmax"] is not None else max(c["xin"])
                             if sum(1 for v in c["xin"] if lo <= v <= hi) < 2:
